@@ -1017,6 +1017,12 @@ example : shutdownGrid (Grid.init gridKeys) =
      .shard 0 .indexPrepare, .shard 0 .indexFlush] ++ famClose 0 0 ++ famClose 0 1 ++
     [.shard 1 .indexPrepare, .shard 1 .indexFlush] ++ famClose 1 0 ++ famClose 1 1 := by decide
 
+/-- `shutdownUpTo` followed by the family's Close is a prefix of the shutdown (the crash points the harness
+takes inside the shutdown are points of `shutdownGrid`) -/
+example : ∀ k ∈ gridKeys, (shutdownGrid (Grid.init gridKeys)).take
+      (shutdownUpTo (Grid.init gridKeys) k.shard k.family ++ famClose k.shard k.family).length =
+    shutdownUpTo (Grid.init gridKeys) k.shard k.family ++ famClose k.shard k.family := by decide
+
 open LinVerif.Generated.C07Loops in
 /-- the outer loops of the code are the ones the grid model is the product over: the recovery walk
 (`Recovery` -> per database `recovery` -> shards -> family hours -> leaders: `GetOrCreatePartition`,
